@@ -216,7 +216,7 @@ static void guard_cb(struct evwatch *w, const struct evwatch_check_cb_info *i, v
 	struct fx *f = arg; (void)w; (void)i;
 	if (++f->iters > 2000) { n_runaway++; f->iters = 0; event_base_loopbreak(f->base); }
 }
-static void watch_p_cb(struct evwatch *w, const struct evwatch_prepare_cb_info *i, void *arg) { struct fx *f = arg; (void)w; (void)i; f->ncb++; }
+static void watch_p_cb(struct evwatch *w, const struct evwatch_prepare_cb_info *i, void *arg) { struct fx *f = arg; struct timeval tv; (void)w; f->ncb++; (void)evwatch_prepare_get_timeout(i, &tv); }
 static void watch_c_cb(struct evwatch *w, const struct evwatch_check_cb_info *i, void *arg) { struct fx *f = arg; (void)w; (void)i; f->ncb++; }
 static void once_cb(evutil_socket_t fd, short what, void *arg) { struct fx *f = arg; (void)fd; (void)what; f->ncb++; }
 static void log_cb(int sev, const char *msg) { (void)sev; (void)msg; n_logs++; }
@@ -827,8 +827,9 @@ X(http_conn, "evhttp_connection_*", N_HTTP|N_DNS, struct evhttp_connection *c; s
 	C(evhttp_connection_set_read_timeout_tv(c, pick_tv(r, &t))); C(evhttp_connection_set_write_timeout_tv(c, pick_tv(r, &t))); C(evhttp_connection_set_initial_retry_tv(c, pick_tv(r, &t))); C(evhttp_connection_set_closecb(c, http_close_cb, f)); \
 	C(evhttp_connection_set_ext_method_cmp(c, http_ext_cmp)); C(evhttp_connection_get_peer(c, &addr, &port)); C(evhttp_connection_get_addr(c)); C(evhttp_connection_get_base(c)); C(evhttp_connection_get_bufferevent(c)); C(evhttp_connection_get_server(c)); \
 	if (vh_chance(r,1,2)) C(evhttp_connection_free(c)); else { C(evhttp_connection_free_on_completion(c)); C(evhttp_connection_free(c)); } } \
-	b = bufferevent_socket_new(f->base, -1, BEV_OPT_CLOSE_ON_FREE | BEV_OPT_THREADSAFE); if (b) { C(c = evhttp_connection_base_bufferevent_new(f->base, NULL, b, "127.0.0.1", (ev_uint16_t)f->http_port)); if (c) C(evhttp_connection_free(c)); else bufferevent_free(b); } \
-	C(c = evhttp_connection_base_bufferevent_unix_new(f->base, NULL, "/nonexistent/sock")); if (c) C(evhttp_connection_free(c))) \
+	b = bufferevent_socket_new(f->base, -1, BEV_OPT_CLOSE_ON_FREE | BEV_OPT_THREADSAFE); if (b) { C(c = evhttp_connection_base_bufferevent_new(f->base, NULL, b, "127.0.0.1", (ev_uint16_t)f->http_port)); if (c) C(evhttp_connection_free(c)); /* on failure the ownership of b is unspecified: left alone */ } \
+	C(c = evhttp_connection_base_bufferevent_unix_new(f->base, NULL, "/nonexistent/sock")); if (c) C(evhttp_connection_free(c)); \
+	b = bufferevent_socket_new(f->base, -1, BEV_OPT_CLOSE_ON_FREE | BEV_OPT_THREADSAFE); if (b) { C(c = evhttp_connection_base_bufferevent_reuse_new(f->base, NULL, b)); if (c) C(evhttp_connection_free(c)); /* on failure the ownership of b is unspecified: left alone */ }) \
 X(http_request_obj, "evhttp_request_*", N_HTTP, struct evhttp_request *q; C(q = evhttp_request_new(http_done_cb, f)); if (q) { C(evhttp_request_set_chunked_cb(q, http_chunk_cb)); C(evhttp_request_set_header_cb(q, http_hdr_cb)); C(evhttp_request_set_error_cb(q, http_req_err_cb)); \
 	C(evhttp_request_set_on_complete_cb(q, http_done_cb, f)); C(evhttp_request_own(q)); C(evhttp_request_is_owned(q)); C(evhttp_request_get_uri(q)); C(evhttp_request_get_evhttp_uri(q)); C(evhttp_request_get_command(q)); C(evhttp_request_get_response_code(q)); \
 	C(evhttp_request_get_response_code_line(q)); C(evhttp_request_get_input_headers(q)); C(evhttp_request_get_output_headers(q)); C(evhttp_request_get_input_buffer(q)); C(evhttp_request_get_output_buffer(q)); C(evhttp_request_get_connection(q)); C(evhttp_request_get_host(q)); \
@@ -847,7 +848,7 @@ X(http_conn_free_busy, "evhttp_connection_free.busy", N_HTTP, struct evhttp_requ
 X(http_free_busy, "evhttp_free.busy", N_HTTP, int c = http_raw(f, raw_reqs[6]); int c2 = http_raw(f, raw_reqs[0]); f->srv_mode = 3; step(f, 3); f->srv_req = NULL; C(evhttp_free(f->http)); f->http = NULL; step(f, 1); if (c >= 0) __real_close(c); if (c2 >= 0) __real_close(c2)) \
 X(http_uri, "evhttp_uri_*/util", N_NOBASE, static const char *const uris[] = { "http://u:p@host.test:8080/p/a?q=1&r=2#frag", "/rel?x", "http://[::1]:80/", "bad uri with spaces", "", "unix:/tmp/s:/x" }; const char *u = VH_PICK(r, uris); struct evhttp_uri *p; \
 	char *s; struct evkeyvalq kv; char out[256]; C(p = evhttp_uri_parse(u)); if (p) { C(evhttp_uri_get_scheme(p)); C(evhttp_uri_get_host(p)); C(evhttp_uri_get_port(p)); C(evhttp_uri_get_path(p)); C(evhttp_uri_get_query(p)); C(evhttp_uri_get_fragment(p)); C(evhttp_uri_get_userinfo(p)); \
-	C(evhttp_uri_set_scheme(p, "https")); C(evhttp_uri_set_host(p, "h2.test")); C(evhttp_uri_set_port(p, 443)); C(evhttp_uri_set_path(p, "/np")); C(evhttp_uri_set_query(p, "a=b")); C(evhttp_uri_set_fragment(p, "f")); C(evhttp_uri_set_userinfo(p, "me")); C(evhttp_uri_set_flags(p, 0)); \
+	C(evhttp_uri_set_scheme(p, "https")); C(evhttp_uri_set_host(p, "h2.test")); C(evhttp_uri_set_port(p, 443)); C(evhttp_uri_set_path(p, "/np")); C(evhttp_uri_set_query(p, "a=b")); C(evhttp_uri_set_fragment(p, "f")); C(evhttp_uri_set_userinfo(p, "me")); C(evhttp_uri_get_unixsocket(p)); C(evhttp_uri_set_unixsocket(p, vh_chance(r,1,2) ? NULL : "/run/x.sock")); C(evhttp_uri_set_flags(p, 0)); \
 	C(evhttp_uri_join(p, out, vh_chance(r,1,3) ? 8 : sizeof(out))); C(evhttp_uri_free(p)); } C(p = evhttp_uri_parse_with_flags(u, EVHTTP_URI_NONCONFORMANT)); if (p) C(evhttp_uri_free(p)); C(p = evhttp_uri_new()); if (p) C(evhttp_uri_free(p)); \
 	C(s = evhttp_encode_uri(u)); if (s) mm_free(s); C(s = evhttp_uriencode(u, -1, 1)); if (s) mm_free(s); C(s = evhttp_decode_uri(u)); if (s) mm_free(s); C(s = evhttp_uridecode(u, 1, NULL)); if (s) mm_free(s); C(s = evhttp_htmlescape("<a&b>")); if (s) mm_free(s); \
 	TAILQ_INIT(&kv); C(evhttp_parse_query(u, &kv)); C(evhttp_clear_headers(&kv)); C(evhttp_parse_query_str("a=1&b=2&&c", &kv)); C(evhttp_clear_headers(&kv)); C(evhttp_parse_query_str_flags("a;b=2", &kv, 0xf)); C(evhttp_clear_headers(&kv)))
@@ -1033,8 +1034,10 @@ static int run_once(const struct point *p, vh_rng rng, const struct fault *fl, s
 /* results live in memory shared with the parent: a child that dies keeps what it counted */
 #define SH_MAXSTAT 64
 #define SH_MAXHASH 60000
-struct shared { volatile long progress[4]; struct { char name[48]; long n; } stats[SH_MAXSTAT]; long nh; uint64_t hashes[SH_MAXHASH]; };
+struct shared { volatile long progress[4]; char cur_point[64], cur_fault[96]; struct { char name[48]; long n; } stats[SH_MAXSTAT]; long nh; uint64_t hashes[SH_MAXHASH]; };
 static struct shared *sh;
+static int side_fd = -1, real_stderr = 2;
+static char sidefile[256];
 #define progress (sh->progress)
 
 #define MAXFAULTS 4000
@@ -1093,12 +1096,47 @@ static void run_case(long idx, vh_rng rng, long start)
 	}
 	for (k = start; k < nf; k++) {
 		progress[0] = k;
+		/* While a fault is injected the process's stderr goes to a side file: a crash of the library on an
+		 * allocation/syscall failure path is not a lock statement (see crash_under_fault() in the parent). */
+		fflush(stderr);
+		if (side_fd >= 0) dup2(side_fd, 2);
+		fault_desc(&flist[k], sh->cur_fault, sizeof(sh->cur_fault));
+		snprintf(sh->cur_point, sizeof(sh->cur_point), "%s", p->name);
 		bad |= run_once(p, rng, &flist[k], NULL, idx);
+		fflush(stderr);
+		if (side_fd >= 0) dup2(real_stderr, 2);
 	}
+	progress[0] = -1;
 	if ((nf > 0 || p->needs) && sh->nh < SH_MAXHASH) sh->hashes[sh->nh++] = case_hash;
 	if (idx - vh_opt.first < 2 || vh_opt.only >= 0)
 		vh_sample(1, "{\"case\":%ld,\"point\":\"%s\",\"allocs_in_call\":%ld,\"syscalls_in_call\":%ld,\"fault_runs\":%ld,\"violation\":%d}", idx, p->name, m.allocs, total_sys, nf, bad);
 	if (vh_opt.verbose) fprintf(stderr, "timing ms: build %.1f call %.1f probe %.1f teardown %.1f\n", t_build * 1e3, t_call * 1e3, t_probe * 1e3, t_tear * 1e3);
+}
+
+/* parent: a child died while a fault was injected.  CALIBRATED: C08 is about locks; a crash (NULL dereference
+ * of an unchecked allocation result etc.) on an injected-failure path is recorded as a NOTE and a counter, not as a
+ * violation of C08 - unless the report involves the lock layer (evthread*.c), in which case it is forwarded to
+ * stderr where the driver turns it into a violation. */
+static void crash_under_fault(void)
+{
+	static char buf[65536];
+	ssize_t n; const char *sum; char line[200]; size_t i;
+	xs("fault_runs_that_killed_the_process");
+	if (side_fd < 0) return;
+	n = pread(side_fd, buf, sizeof(buf) - 1, 0);
+	if (n < 0) n = 0;
+	buf[n] = 0;
+	if (ftruncate(side_fd, 0) != 0) {}
+	if (strstr(buf, "evthread") || strstr(buf, "lockmon")) { fputs(buf, stderr); xs("crashes_in_lock_layer_forwarded"); return; }
+	sum = strstr(buf, "SUMMARY: ");
+	if (!sum) sum = strstr(buf, "runtime error");
+	if (!sum) sum = strstr(buf, "Assertion");
+	if (sum) { while (sum > buf && sum[-1] != '\n') sum--; }
+	else sum = buf[0] ? buf : "(no report)";
+	for (i = 0; i < sizeof(line) - 1 && sum[i] && sum[i] != '\n'; i++) line[i] = sum[i];
+	line[i] = 0;
+	printf("NOTE crash-under-injected-fault point=%s fault=[%s] %s\n", sh->cur_point, sh->cur_fault, line);
+	if (strstr(buf, "Assertion") && !strstr(buf, "Sanitizer")) xs("library_assertions_under_fault");
 }
 
 int main(int argc, char **argv)
@@ -1126,6 +1164,8 @@ int main(int argc, char **argv)
 		fp = fopen(datafile, "w"); for (i = 0; i < 2000; i++) fprintf(fp, "data-%05d\n", i); fclose(fp);
 	}
 	if (vh_opt.verbose > 1) { int i; for (i = 0; i < NPOINTS; i++) fprintf(stderr, "%3d %s (%s)\n", i, points[i].name, points[i].id); }
+	snprintf(sidefile, sizeof(sidefile), "h_locks.%d.side", (int)getpid());
+	if (!getenv("H_LOCKS_NOSIDE")) { side_fd = open(sidefile, O_RDWR | O_CREAT | O_TRUNC | O_APPEND, 0600); real_stderr = dup(2); }
 	sh = mmap(NULL, sizeof(*sh), PROT_READ | PROT_WRITE, MAP_SHARED | MAP_ANONYMOUS, -1, 0);
 	{
 		/* The cases run in a forked child so that a crash of the library on an
@@ -1159,7 +1199,7 @@ int main(int argc, char **argv)
 			while (waitpid(pid, &st, 0) < 0 && errno == EINTR) ;
 			if (progress[1]) break;
 			/* died in fault run progress[0] of case progress[2] (or in its dry run) */
-			xs("fault_runs_that_killed_the_process");
+			if (progress[0] >= 0) crash_under_fault(); else xs("dry_runs_that_killed_the_process");
 			if (++restarts > 3000) { xs("sweep_abandoned"); break; }
 			if (progress[0] < 0 || (progress[2] == scase && progress[0] < sfault)) { xs("cases_abandoned_after_crash"); scase = progress[2] + 1; sfault = 0; }
 			else { scase = progress[2]; sfault = progress[0] + 1; }
@@ -1167,7 +1207,7 @@ int main(int argc, char **argv)
 	}
 	{ int i; long k; for (i = 0; i < SH_MAXSTAT && sh->stats[i].name[0]; i++) vh_stat_add(sh->stats[i].name, sh->stats[i].n);
 	  for (k = 0; k < sh->nh; k++) vh_distinct(sh->hashes[k]); }
-	unlink(hostsfile); unlink(resolvfile); unlink(datafile);
+	unlink(hostsfile); unlink(resolvfile); unlink(datafile); if (side_fd >= 0) unlink(sidefile);
 	vh_finish();
 	return 0;
 }
